@@ -189,6 +189,73 @@ def work_banner(chunk, st):
     st.sample({'banner_content': str(chunk[0][2]) + chunk[0][3][:40], 'role': chunk[0][4]}, cap=22)
 
 
+# ---- text the peer chooses freely and the tool reads with pattern matching (lines in front of the identification string, its
+# software and comment fields): long runs of one unit after a prefix that starts a pattern, ending with or without the character that
+# would complete it.  A pattern that backtracks without bound on such a run never comes back to the environment; the CPU watchdog of
+# mc/runner.py (process CPU time, 6 s here; an audit takes milliseconds) ends the execution as hung.
+PATHO_PREFIX = ['', '\x1b[', '\x1b]', 'OpenSSH_', 'dropbear_', 'libssh-', '1.', '(', '%', '\\']
+PATHO_UNIT = ['1', '9;', '1.', 'a', '-', '_', '.', 'p1', 'a1', '(', '\t', '=?']
+PATHO_TAIL = ['', '!', 'm']
+
+
+def pathological_tasks(tier):
+    out = []
+    for place in ('header', 'header-probe', 'software', 'comment'):
+        for pre in PATHO_PREFIX:
+            for unit in PATHO_UNIT:
+                for n in (40, 2000):
+                    for tail in PATHO_TAIL:
+                        if place != 'header' and tier == 'quick' and n == 2000 and tail:
+                            continue
+                        out.append((place, pre, unit, n, tail))
+    return out
+
+
+def work_pathological(chunk, st):
+    from mc import runner
+    lists = dict(kex=['curve25519-sha256', 'diffie-hellman-group14-sha1'], key=['ssh-ed25519', 'ssh-rsa'], enc=['aes256-ctr', '3des-cbc'], mac=['hmac-sha2-256', 'hmac-md5'])
+    old = runner.CPU_LIMIT_S
+    runner.CPU_LIMIT_S = min(old, 6.0) if old > 0 else 6.0
+    try:
+        for place, pre, unit, n, tail in chunk:
+            text = (pre + unit * n + tail)
+            if place in ('software', 'comment'):
+                text = text.replace('\t', '+').replace('\x1b', '^')
+            raw = text.encode('latin-1')
+            kw = {}
+            if place == 'header':
+                kw['pre_banner'] = [raw + b'\r\n']
+            elif place == 'header-probe':
+                kw['pre_banner'] = [b'notice\r\n', raw + b'\r\n', b'\r\n']
+            elif place == 'software':
+                kw['banner'] = b'SSH-2.0-' + raw.replace(b' ', b'_')
+            else:
+                kw['banner'] = b'SSH-2.0-OpenSSH_9.6 ' + raw
+            for role in ('server', 'client'):
+                if role == 'client' and place.startswith('header'):
+                    continue
+                if role == 'server':
+                    res = H.audit(peer.Server(host_keys=peer.standard_host_keys(lists['key']), **dict(lists, **kw)), opts=['-n', '-j', '--skip-rate-test'])
+                else:
+                    res = H.client_audit(peer.Client(**dict(lists, **kw)), opts=['-n', '-j'])
+                root = ('patho', place, pre, unit, n, tail, role)
+                st.execution(res.world, outcome=('patho', res.status, bool(res.hang)), root=root, nontrivial=root, detail='light')
+                d = {'place': place, 'text': (pre + unit * 3 + '...x%d' % n + tail), 'role': role, 'status': res.status, 'tail': (res.stdout + res.stderr)[-200:]}
+                if res.hang or res.exc or res.status not in (0, 1, 2, 3):
+                    st.violation('peer-text:crash-or-hang:%s' % place, dict(d, hang=res.hang, exc=res.exc))
+                    continue
+                try:
+                    doc = json.loads(res.stdout)
+                    complete = all([e['algorithm'] for e in doc.get(c, [])] == lists[c] for c in lists)
+                except ValueError:
+                    complete = False
+                if not complete or res.status != 3:
+                    st.violation('peer-text:wellformed-handshake-rejected:%s' % place, d)
+    finally:
+        runner.CPU_LIMIT_S = old
+    st.sample({'peer_text': [chunk[0][0], chunk[0][1] + chunk[0][2] * 3 + '...', chunk[0][3]]}, cap=6)
+
+
 # ---- byte-level mutations of the replies that carry the peer's key material: every byte of every host-key probe reply of servers
 # presenting certificates (each CA kind) and plain keys, with single-bit flips: the reply stays a well-framed packet, only its content
 # (type strings, curve names, lengths inside the blob, key bytes) changes
@@ -411,6 +478,7 @@ def run(tier, seed):
     check_client_timing(st)
     par.pmap(work_banner, banner_content_tasks(), stats=st, chunk=8)
     par.pmap(work_policy_unmeasured, policy_unmeasured_tasks(), stats=st, chunk=6)
+    par.pmap(work_pathological, pathological_tasks(tier), stats=st, chunk=30)
     muts = mutation_tasks(tier)
     par.pmap(work_mutations, muts, stats=st, chunk=40)
     from props import delivery as _DL
@@ -458,7 +526,8 @@ def run(tier, seed):
              'debug x1..3, duplicate, extra lines, split at every offset, 1-byte segments, refuse/timeout at connect); '
              'thorough adds all pairs with a second message-level fault on a later connection; the message-level plans again through the -T worker path and with -j; degenerate GEX groups; bind failures of a client audit; '
              '%d identification strings (recognised and other software names x unexpected version strings x SSH-2.0/1.99 x both roles x text/JSON); '
-             'non-trivial = at least one deviation' % len(banner_content_tasks()),
+             '%d runs of peer-chosen text (a pattern-starting prefix, 40 or 2000 repetitions of a unit, with and without a completing character) as a line in front of the identification string on every connection, as its software field and as its comment, under a CPU watchdog; '
+             'non-trivial = at least one deviation' % (len(banner_content_tasks()), len(pathological_tasks(tier))),
         assumptions=['environment model: mc/vnet.py, mc/peer.py (validated against real loopback TCP by mc/realnet.py when traces_validated>0)',
                      'random exponent pinned to the low end of its range; ValueError on an empty range is preserved'],
         exhaustive=True, traces_validated=validated, extra={'deviation_bound_completed': bound_done,
